@@ -62,6 +62,9 @@ package kgo
 //   writer (audit below): the ID is never negative
 //@   requires cxn.corrID >= 0
 //@   ensures [id-stays-non-negative] cxn.corrID >= 0
+//   a request waiting out a broker throttle is released - with an error - by its own context, by the client
+//   closing and by the death of its connection (the throttle itself is uncapped)
+//@   site select#0 assert [throttle-wait-ends-when-the-connection-dies] waitson(cxn.deadCh) && waitson($Done0) && waitson($Done1)
 //@   site call AppendRequest#0 assert [header-carries-the-current-id] arg3 == cxn.corrID && cxn.corrID == old(cxn.corrID)
 //@   site store corrID#0 assert [advances-by-one] prev == old(cxn.corrID) && (val == prev + 1 || (prev == 2147483647 && val == -2147483648))
 //@   site store corrID#1 assert [wraps-to-zero] prev < 0 && val == 0
